@@ -1144,7 +1144,12 @@ func (t *FnTrans) builtin(b *ssa.Builtin, c *ssa.CallCommon, res ssa.Value) {
 			_, _, lc := t.mapComps(u)
 			m := t.term(a)
 			t.bind(res, ite(eq(m, "0"), "0", app("select", t.get(lc), m)))
-			t.assume(app(">=", t.vals[res].S, "0"))
+			t.assume(and(app(">=", t.vals[res].S, "0"), app("<=", t.vals[res].S, "9223372036854775807")))
+			// a map of size 0 (a nil map included) has no keys
+			dc, _, _ := t.mapComps(u)
+			dom := app("select", t.get(dc), m)
+			ks := t.sortOf(u.Key())
+			t.assume(implies(eq(t.vals[res].S, "0"), fmt.Sprintf("(forall ((lk %s)) (! (not (select %s lk)) :pattern ((select %s lk))))", ks, dom, dom)))
 		case *types.Array:
 			t.bind(res, fmt.Sprint(u.Len()))
 		case *types.Pointer:
